@@ -6,7 +6,7 @@ from __future__ import annotations
 import ast
 from typing import Any
 
-from .bitabs import (NeedCases, AExt, AScaled, ASumVec, PartialRaise, _Raises, fresh, AFin, fin_lift, fin_atoms, mkfin, MAX_FIN_ATOMS, ABits, ACond, AEnum, AFn, AInt, AObj, AOpq, ATable, AView, Abort, F, OB, ONE, ZERO, PathRaise,
+from .bitabs import (fin_to_bit, NeedCases, AExt, AScaled, ASumVec, PartialRaise, _Raises, fresh, AFin, fin_lift, fin_atoms, mkfin, MAX_FIN_ATOMS, ABits, ACond, AEnum, AFn, AInt, AObj, AOpq, ATable, AView, Abort, F, OB, ONE, ZERO, PathRaise,
                      cbit, _freeze)
 from .model import (BitArr, ClassInfo, ClassRef, EnumMember, FuncInfo, FuncRef, ModRef, NPArr, Rec, StructObj, Unfoldable, SAFE)
 
@@ -184,7 +184,7 @@ def binop(fr, op, l, r, node):
                     raise NeedCases(sorted(a_.atoms))
                 nb = len(a_.table[0])
                 bits = [mkfin(a_.atoms, [(t[i] >> (7 - k)) & 1 for t in a_.table]) for i in range(nb) for k in range(8)]
-                bits = [x if isinstance(x, AFin) else cbit(int(x)) for x in bits]
+                bits = [fin_to_bit(x) if isinstance(x, AFin) else cbit(int(x)) for x in bits]
                 fa = ABits(bits, "bytes")
                 return binop(fr, op, fa, r, node) if a_ is l else binop(fr, op, l, fa, node)
         v = try_lift(BIN[type(op)], l, r)
@@ -875,6 +875,18 @@ def getattr_(fr, base, attr, node):
             return ci.name
         if attr == "__members__" and repo.is_enum(ci):
             return dict(repo.enum_members(ci))
+        if repo.is_enum(ci) and attr in ("_value2member_map_", "_member_map_", "_member_names_"):
+            mem_ = repo.enum_members(ci)
+            if attr == "_member_names_":
+                return list(mem_)
+            if attr == "_member_map_":
+                return dict(mem_)
+            try:
+                return {m_.value: m_ for m_ in mem_.values()}
+            except TypeError:
+                raise Abort(f"{ci.name}._value2member_map_ with unhashable values")
+        if repo.is_enum(ci) and attr.startswith("_") and attr.endswith("_") and not attr.startswith("__"):
+            raise Abort(f"enum internals {ci.name}.{attr} are not modelled")
         if attr.startswith("__") and attr.endswith("__"):
             # attributes every class object has (or may inherit from a metaclass): not modelled — never reported as a crash of the code
             raise Abort(f"class attribute {ci.name}.{attr} is not modelled")
@@ -1891,6 +1903,18 @@ def method(fr, base, name, args, kw, n):
         if isinstance(base, bytes) and name in ("hex", "decode") or isinstance(base, str) and name in ("format", "encode", "join", "rjust", "ljust", "upper", "lower", "strip", "split", "startswith", "endswith", "replace", "zfill"):
             if any(is_abs(a) for a in args):
                 return I.opaque(f"str/bytes method {name} on abstract", notnone=True)
+        if isinstance(base, tuple) and name in ("count", "index") and args and (deep_abs(args[0]) or any(deep_abs(e) for e in base)):
+            # python would compare the abstract objects by identity: decided element by element instead
+            hits_ = []
+            for k_, e_ in enumerate(base):
+                t_ = eq(fr, e_, args[0], n)
+                if t_ is True or (t_ is not False and I.decide(t_, f"{name}:{n.lineno}")):
+                    hits_.append(k_)
+                    if name == "index":
+                        return k_
+            if name == "count":
+                return len(hits_)
+            raise PathRaise("ValueError", "tuple.index(x): x not in tuple")
         if isinstance(base, list) and name in ("append", "extend", "insert", "pop", "remove", "index", "copy", "clear", "reverse", "sort", "count"):
             if name == "index" and args:
                 bounds = []
